@@ -7,8 +7,8 @@
 set -u
 ID=$1; shift
 DEMO="$*"
-WT=/tmp/wt-$ID
-OUT=/verif/seeded/$ID
+WT=${WT_PREFIX:-/tmp/wt-}$ID
+OUT=/verif/seeded/${OUT_ID:-$ID}
 mkdir -p $OUT
 cd $WT || exit 2
 git diff > $OUT/patch.diff
